@@ -1,1311 +1,42 @@
 // c17: conformance harness for the request/response layer of pkg/p2p (property C17).
 //
-// Two real p2p.Connections (libp2p hosts on 127.0.0.1) live in this process.  The five schedule
-// points of message_protocol.go (build tag `verif`) call recorder.hook, which logs
-// (goroutine, sequence number, point, request id) and may block (scheduler gate).
+// Two or three real p2p.Connections (libp2p hosts on 127.0.0.1) live in this process.  The five schedule points of
+// message_protocol.go (build tag `verif`) call recorder.hook, which logs (goroutine, sequence number, point, request id)
+// and may block (scheduler gate).
 //
-//	c17 traffic  <trace-prefix> <meta.json> <rounds> <workers> <callsPerWorker> <timeoutMs>
-//	     random concurrent traffic with handler latencies around the timeout, cancellations, late and
-//	     duplicate responses; writes the trace for spec/trace/ReqRespTrace.tla and asserts directly on
-//	     the real results (bounded completion, correlation, VerifPending()==0 at quiescence).
-//	c17 lost     <trace.ndjson> <result.json> <timeoutMs>
-//	     forced schedule: every attempt is held at req.afterSend until its response arrived and was
-//	     looked up; outcome read from the real call.
-//	c17 deadlock <trace.ndjson> <result.json> <timeoutMs>
-//	     forced schedule: the first attempt times out and is held at req.timerFired until its late
-//	     response reached res.beforeDeliver; then released; watchdog on the call and on a fresh call.
+//	c17 traffic    <trace-prefix> <meta.json> <profile,profile,...> <workers> <callsPerWorker> <timeoutMs>
+//	     rounds of random concurrent traffic (see traffic.go for the profiles); writes one trace per round and requesting
+//	     host for spec/trace/ReqRespTrace.tla and asserts directly on the real results (bounded completion, correlation,
+//	     VerifPending()==0 at quiescence on every host).
+//	c17 lost       <trace.ndjson> <result.json> <timeoutMs>   response before registration; then failing sends under a watchdog
+//	c17 deadlock   <trace.ndjson> <result.json> <timeoutMs>   late response racing with the timeout path (+ duplicate)
+//	c17 cancelrace <trace.ndjson> <result.json> <timeoutMs>   cancellation forced at the delivery point
+//	c17 blackhole  <trace.ndjson> <result.json> <timeoutMs>   a peer that accepts TCP and never speaks: is resMu held across mp.send?
+//	c17 payload    <trace.ndjson> <result.json> <timeoutMs>   nil / empty / 64 KiB+1 / 1 MiB / 5 MiB payloads echoed, error replies
 //
 // Exit code 0 = ran to completion (verdicts are in the json); 3 = set-up failure (inconclusive).
 package main
 
 import (
-	"bytes"
-	"context"
-	crand "crypto/rand"
-	"encoding/json"
 	"fmt"
-	"math/rand"
 	"os"
-	"regexp"
-	"runtime"
-	"strconv"
-	"strings"
-	"sync"
-	"sync/atomic"
-	"time"
-
-	lcrypto "github.com/libp2p/go-libp2p/core/crypto"
-	"github.com/libp2p/go-libp2p/core/peer"
-
-	"github.com/LiskHQ/lisk-engine/pkg/log"
-	"github.com/LiskHQ/lisk-engine/pkg/p2p"
-
-	"verifharness/internal/tj"
 )
-
-const proc = "verifEcho"
-
-func goid() int64 {
-	var b [64]byte
-	n := runtime.Stack(b[:], false)
-	s := b[len("goroutine "):n]
-	i := bytes.IndexByte(s, ' ')
-	v, _ := strconv.ParseInt(string(s[:i]), 10, 64)
-	return v
-}
-
-// ---------------------------------------------------------------- recorder
-
-type rawEv struct {
-	Seq   int
-	T     int64 // microseconds since recorder start
-	Gid   int64
-	Point string // hook point, or "call.start" / "call.return"
-	ID    string
-	Call  int
-	Res   string // call.return: resp|timeout|cancel|error
-	Data  string // call.return: response payload
-	Err   string
-	Held  int // res.beforeDeliver: 1 if resMu was held at that point, 0 if free
-}
-
-type recorder struct {
-	mu    sync.Mutex
-	t0    time.Time
-	evs   []rawEv
-	gates map[string]func(id string)
-	hostA atomic.Pointer[p2p.Connection]
-}
-
-func newRecorder() *recorder {
-	return &recorder{t0: time.Now(), gates: map[string]func(string){}}
-}
-
-func (r *recorder) add(e rawEv) {
-	e.Gid = goid()
-	r.mu.Lock()
-	e.Seq = len(r.evs)
-	e.T = time.Since(r.t0).Microseconds()
-	r.evs = append(r.evs, e)
-	r.mu.Unlock()
-}
-
-func (r *recorder) hook(point, id string) {
-	e := rawEv{Point: point, ID: id, Held: -1}
-	if point == "res.beforeDeliver" {
-		if a := r.hostA.Load(); a != nil {
-			_, ok := a.VerifTryPending()
-			e.Held = 1 - tj.B(ok)
-		}
-	}
-	r.add(e)
-	r.mu.Lock()
-	g := r.gates[point]
-	r.mu.Unlock()
-	if g != nil {
-		g(id)
-	}
-}
-
-func (r *recorder) setGate(point string, f func(id string)) {
-	r.mu.Lock()
-	r.gates[point] = f
-	r.mu.Unlock()
-}
-
-func (r *recorder) snapshot() []rawEv {
-	r.mu.Lock()
-	defer r.mu.Unlock()
-	return append([]rawEv(nil), r.evs...)
-}
-
-func (r *recorder) reset() {
-	r.mu.Lock()
-	r.evs = nil
-	r.mu.Unlock()
-}
-
-// seen reports whether an event (point, id) has been recorded.
-func (r *recorder) seen(point, id string) bool {
-	r.mu.Lock()
-	defer r.mu.Unlock()
-	for i := len(r.evs) - 1; i >= 0; i-- {
-		if r.evs[i].Point == point && r.evs[i].ID == id {
-			return true
-		}
-	}
-	return false
-}
-
-func (r *recorder) count(point string) int {
-	r.mu.Lock()
-	defer r.mu.Unlock()
-	n := 0
-	for i := range r.evs {
-		if r.evs[i].Point == point {
-			n++
-		}
-	}
-	return n
-}
-
-func waitFor(d time.Duration, cond func() bool) bool {
-	end := time.Now().Add(d)
-	for {
-		if cond() {
-			return true
-		}
-		if time.Now().After(end) {
-			return false
-		}
-		time.Sleep(500 * time.Microsecond)
-	}
-}
-
-// ---------------------------------------------------------------- hosts
-
-type reqPayload struct {
-	N   int   `json:"n"`   // nonce of the call
-	Lat []int `json:"lat"` // handler latency per attempt in microseconds (last entry repeats)
-	Dup []int `json:"dup"` // per attempt: delay (us) of an extra copy of the response, -1 = none
-}
-
-type responder struct {
-	mu        sync.Mutex
-	attempts  map[int]int       // nonce -> attempts seen
-	produced  map[string]string // request id -> payload produced by the handler for it
-	nonceOf   map[string]int
-	wg        sync.WaitGroup // running handlers and duplicate senders
-	responses int64          // responses handed to the network (handler returns + duplicates sent)
-	b         atomic.Pointer[p2p.Connection]
-}
-
-func newResponder() *responder {
-	return &responder{attempts: map[int]int{}, produced: map[string]string{}, nonceOf: map[string]int{}}
-}
-
-func pick(a []int, i int, def int) int {
-	if len(a) == 0 {
-		return def
-	}
-	if i >= len(a) {
-		i = len(a) - 1
-	}
-	return a[i]
-}
-
-func (rs *responder) handle(w p2p.ResponseWriter, req *p2p.Request) {
-	rs.wg.Add(1)
-	defer rs.wg.Done()
-	var p reqPayload
-	if err := json.Unmarshal(req.Data, &p); err != nil {
-		w.Error(fmt.Errorf("bad payload"))
-		return
-	}
-	rs.mu.Lock()
-	idx := rs.attempts[p.N]
-	rs.attempts[p.N] = idx + 1
-	out := fmt.Sprintf("%d|%s|%d", p.N, req.ID, idx)
-	rs.produced[req.ID] = out
-	rs.nonceOf[req.ID] = p.N
-	rs.mu.Unlock()
-	if d := pick(p.Dup, idx, -1); d >= 0 {
-		rs.wg.Add(1)
-		go func() {
-			defer rs.wg.Done()
-			time.Sleep(time.Duration(d) * time.Microsecond)
-			if b := rs.b.Load(); b != nil {
-				ctx, cancel := context.WithTimeout(context.Background(), 2*time.Second)
-				if err := b.VerifRespond(ctx, req.PeerID, req.ID, proc, []byte(out)); err == nil {
-					atomic.AddInt64(&rs.responses, 1)
-				}
-				cancel()
-			}
-		}()
-	}
-	if l := pick(p.Lat, idx, 0); l > 0 {
-		time.Sleep(time.Duration(l) * time.Microsecond)
-	}
-	w.Write([]byte(out))
-	atomic.AddInt64(&rs.responses, 1)
-}
-
-type pair struct {
-	a, b *p2p.Connection
-	bID  p2p.PeerID
-	rs   *responder
-}
-
-var hostSeq int64
-
-func newHost(handler p2p.RPCHandler, timeout time.Duration) (*p2p.Connection, error) {
-	lg, err := log.NewSilentLogger()
-	if err != nil {
-		return nil, err
-	}
-	cfg := &p2p.Config{
-		Addresses:          []string{"/ip4/127.0.0.1/tcp/0"},
-		ConnectionSecurity: "noise",
-		ChainID:            []byte{0xc1, 0x17, 0, 0},
-		Version:            "1.0",
-	}
-	c := p2p.NewConnection(lg, cfg)
-	if err := c.RegisterRPCHandler(proc, handler, p2p.WithRPCMessageCounter(1<<30, 0)); err != nil {
-		return nil, err
-	}
-	seed := []byte(fmt.Sprintf("c17-host-%d-%d", os.Getpid(), atomic.AddInt64(&hostSeq, 1)))
-	if err := c.Start(seed); err != nil {
-		return nil, err
-	}
-	c.VerifSetTimeout(timeout)
-	return c, nil
-}
-
-func newPair(rec *recorder, timeout time.Duration) (*pair, error) {
-	rs := newResponder()
-	a, err := newHost(func(w p2p.ResponseWriter, req *p2p.Request) {}, timeout)
-	if err != nil {
-		return nil, fmt.Errorf("host A: %w", err)
-	}
-	b, err := newHost(rs.handle, timeout)
-	if err != nil {
-		return nil, fmt.Errorf("host B: %w", err)
-	}
-	rs.b.Store(b)
-	addrs, err := b.MultiAddress()
-	if err != nil || len(addrs) == 0 {
-		return nil, fmt.Errorf("host B has no address: %v", err)
-	}
-	ai, err := p2p.AddrInfoFromMultiAddr(addrs[0])
-	if err != nil {
-		return nil, err
-	}
-	ctx, cancel := context.WithTimeout(context.Background(), 10*time.Second)
-	defer cancel()
-	if err := a.Connect(ctx, *ai); err != nil {
-		return nil, fmt.Errorf("connect: %w", err)
-	}
-	rec.hostA.Store(a)
-	p := &pair{a: a, b: b, bID: b.ID(), rs: rs}
-	// warm-up request (stream negotiation, not recorded)
-	p2p.VerifSetHook(nil)
-	wctx, wcancel := context.WithTimeout(context.Background(), 10*time.Second)
-	data, _ := json.Marshal(reqPayload{N: 0})
-	resp := a.RequestFrom(wctx, p.bID, proc, data)
-	wcancel()
-	if err := resp.Error(); err != nil && err.Error() != "timeout" {
-		// a timeout is behaviour of the layer under test (judged by the scenarios), not a set-up failure
-		return nil, fmt.Errorf("warm-up request failed: %v", err)
-	}
-	waitFor(2*time.Second, func() bool { n, ok := a.VerifTryPending(); return ok && n == 0 })
-	atomic.StoreInt64(&rs.responses, 0)
-	rec.reset()
-	p2p.VerifSetHook(rec.hook)
-	return p, nil
-}
-
-func (p *pair) stop() {
-	done := make(chan struct{})
-	go func() { _ = p.a.Stop(); _ = p.b.Stop(); close(done) }()
-	select {
-	case <-done:
-	case <-time.After(8 * time.Second):
-	}
-}
-
-// ---------------------------------------------------------------- calls
-
-type callSpec struct {
-	Call     int
-	Payload  reqPayload
-	CancelUs int // >= 0: cancel ctx after that many microseconds
-}
-
-type callResult struct {
-	Call   int
-	Res    string
-	Data   string
-	Err    string
-	DurUs  int64
-	Hung   bool
-	Cancel int
-}
-
-func classify(resp p2p.Response, evs func() (sent, fired int)) (string, string) {
-	err := resp.Error()
-	if err == nil {
-		return "resp", ""
-	}
-	if err.Error() == "timeout" {
-		return "timeout", err.Error()
-	}
-	if err == context.Canceled || err == context.DeadlineExceeded || strings.Contains(err.Error(), "context canceled") || strings.Contains(err.Error(), "deadline exceeded") {
-		s, f := evs()
-		if s > f {
-			return "cancel", err.Error()
-		}
-		return "error", err.Error()
-	}
-	if len(resp.Data()) > 0 {
-		return "resp", err.Error() // handler-level error carried by a response
-	}
-	return "error", err.Error()
-}
-
-// doCall runs one RequestFrom in its own goroutine and waits for it at most `bound`.
-func doCall(rec *recorder, p *pair, cs callSpec, bound time.Duration) callResult {
-	done := make(chan callResult, 1)
-	go func() {
-		gid := goid()
-		ctx, cancel := context.WithCancel(context.Background())
-		defer cancel()
-		if cs.CancelUs >= 0 {
-			tm := time.AfterFunc(time.Duration(cs.CancelUs)*time.Microsecond, cancel)
-			defer tm.Stop()
-		}
-		data, _ := json.Marshal(cs.Payload)
-		rec.add(rawEv{Point: "call.start", Call: cs.Call, Held: -1})
-		t := time.Now()
-		resp := p.a.RequestFrom(ctx, p.bID, proc, data)
-		dur := time.Since(t)
-		kind, es := classify(resp, func() (int, int) {
-			s, f := 0, 0
-			for _, e := range rec.snapshot() {
-				if e.Gid == gid {
-					switch e.Point {
-					case "call.start":
-						s, f = 0, 0
-					case "req.afterSend":
-						s++
-					case "req.timerFired":
-						f++
-					}
-				}
-			}
-			return s, f
-		})
-		rec.add(rawEv{Point: "call.return", Call: cs.Call, Res: kind, Data: string(resp.Data()), Err: es, Held: -1})
-		done <- callResult{Call: cs.Call, Res: kind, Data: string(resp.Data()), Err: es, DurUs: dur.Microseconds(), Cancel: cs.CancelUs}
-	}()
-	select {
-	case r := <-done:
-		return r
-	case <-time.After(bound):
-		return callResult{Call: cs.Call, Hung: true, DurUs: bound.Microseconds(), Cancel: cs.CancelUs}
-	}
-}
-
-// ---------------------------------------------------------------- goroutine dump analysis
-
-type dumpInfo struct {
-	ResponderInChanSend bool     `json:"responder_blocked_in_chan_send"`
-	RequesterOnMutex    bool     `json:"requester_blocked_on_resMu"`
-	Excerpt             []string `json:"excerpt"`
-}
-
-var hdrRe = regexp.MustCompile(`^goroutine \d+ \[([^\]]+)\]:`)
-
-func analyzeDump() dumpInfo {
-	buf := make([]byte, 8<<20)
-	n := runtime.Stack(buf, true)
-	var di dumpInfo
-	for _, g := range strings.Split(string(buf[:n]), "\n\n") {
-		lines := strings.Split(g, "\n")
-		m := hdrRe.FindStringSubmatch(lines[0])
-		if m == nil {
-			continue
-		}
-		state := m[1]
-		onResp := strings.Contains(g, "p2p.(*MessageProtocol).onResponse")
-		inReq := strings.Contains(g, "p2p.(*MessageProtocol).sendRequestMessage")
-		if onResp && strings.HasPrefix(state, "chan send") {
-			di.ResponderInChanSend = true
-			di.Excerpt = append(di.Excerpt, firstFrames(lines, 7)...)
-		}
-		if inReq && (strings.HasPrefix(state, "sync.Mutex.Lock") || strings.HasPrefix(state, "semacquire")) {
-			if !di.RequesterOnMutex {
-				di.Excerpt = append(di.Excerpt, firstFrames(lines, 9)...)
-			}
-			di.RequesterOnMutex = true
-		}
-	}
-	return di
-}
-
-func firstFrames(lines []string, n int) []string {
-	out := []string{}
-	for i, l := range lines {
-		if i >= n {
-			break
-		}
-		l = strings.TrimSpace(l)
-		if len(l) > 160 {
-			l = l[:160]
-		}
-		out = append(out, l)
-	}
-	return out
-}
-
-// ---------------------------------------------------------------- trace normalisation
-
-type tev struct {
-	Ev      string `json:"ev"`
-	C       int    `json:"c"`
-	K       int    `json:"k"`
-	D       int    `json:"d"`
-	Res     string `json:"res"`
-	Corr    int    `json:"corr"`
-	N       int    `json:"n"`
-	Pending int    `json:"pending"`
-	T       int64  `json:"t"`
-}
-
-type attemptInfo struct {
-	ID                                string
-	SentSeq, RegSeq, FiredSeq         int
-	Locked, Found, Missed, MissBefore int // MissBefore: misses before the timer fired / the attempt ended
-	MissBeforeReg                     int
-}
-
-type segStats struct {
-	Calls, Attempts, Sent, Registered, Timers, Locked, Found, Miss, Dups, Stray int
-	Resp, Timeout, Cancel, Error                                                int
-	EarlyLocked                                                                 int // response handler ran before req.afterSend was logged
-	HeldAtDeliver, FreeAtDeliver                                                int
-	RegisterBeforeSend, SendBeforeRegister                                      int
-	LateMiss                                                                    int
-}
-
-type finding struct {
-	Key    string      `json:"key"`
-	What   string      `json:"what"`
-	Detail interface{} `json:"detail"`
-}
-
-// normalise turns the raw events of one segment into trace lines; returns per-call attempt infos.
-func normalise(evs []rawEv, ncalls, maxRetry, pending int, rs *responder, results map[int]callResult, st *segStats) ([]tev, map[int][]*attemptInfo, []finding) {
-	out := []tev{{Ev: "Reset", N: ncalls, K: maxRetry, C: 0, D: -1}}
-	var finds []finding
-	gidCall := map[int64]int{}
-	idCall := map[string]int{}
-	idK := map[string]int{}
-	atts := map[int][]*attemptInfo{}
-	ai := map[string]*attemptInfo{}
-	// pass 1: request-side ids
-	for _, e := range evs {
-		switch e.Point {
-		case "call.start":
-			gidCall[e.Gid] = e.Call
-		case "req.afterSend", "req.registered", "req.timerFired":
-			c, ok := gidCall[e.Gid]
-			if !ok {
-				continue
-			}
-			if _, known := idCall[e.ID]; !known {
-				idCall[e.ID] = c
-				idK[e.ID] = len(atts[c])
-				a := &attemptInfo{ID: e.ID, SentSeq: -1, RegSeq: -1, FiredSeq: -1}
-				atts[c] = append(atts[c], a)
-				ai[e.ID] = a
-			}
-			a := ai[e.ID]
-			switch e.Point {
-			case "req.afterSend":
-				a.SentSeq = e.Seq
-			case "req.registered":
-				a.RegSeq = e.Seq
-			case "req.timerFired":
-				a.FiredSeq = e.Seq
-			}
-		}
-	}
-	returnSeq := map[int]int{}
-	for _, e := range evs {
-		if e.Point == "call.return" {
-			returnSeq[e.Call] = e.Seq
-		}
-	}
-	// pass 2: emit
-	dupCount := map[string]int{}
-	lastLocked := map[int64]string{} // goroutine -> id it has locked for
-	lastD := map[int64]int{}
-	// next event index per goroutine, to decide Found vs Miss
-	nextOfGid := make([]int, len(evs))
-	last := map[int64]int{}
-	for i := len(evs) - 1; i >= 0; i-- {
-		if j, ok := last[evs[i].Gid]; ok {
-			nextOfGid[i] = j
-		} else {
-			nextOfGid[i] = -1
-		}
-		last[evs[i].Gid] = i
-	}
-	for i, e := range evs {
-		switch e.Point {
-		case "req.afterSend":
-			if c, ok := idCall[e.ID]; ok {
-				out = append(out, tev{Ev: "Sent", C: c, K: idK[e.ID], D: -1, T: e.T})
-				st.Sent++
-			}
-		case "req.registered":
-			if c, ok := idCall[e.ID]; ok {
-				out = append(out, tev{Ev: "Registered", C: c, K: idK[e.ID], D: -1, T: e.T})
-				st.Registered++
-			}
-		case "req.timerFired":
-			if c, ok := idCall[e.ID]; ok {
-				out = append(out, tev{Ev: "TimerFired", C: c, K: idK[e.ID], D: -1, T: e.T})
-				st.Timers++
-			}
-		case "res.locked":
-			c, ok := idCall[e.ID]
-			if !ok {
-				st.Stray++
-				continue
-			}
-			d := dupCount[e.ID]
-			dupCount[e.ID] = d + 1
-			if d > 0 {
-				st.Dups++
-			}
-			a := ai[e.ID]
-			a.Locked++
-			if a.SentSeq < 0 || e.Seq < a.SentSeq {
-				st.EarlyLocked++
-			}
-			lastLocked[e.Gid] = e.ID
-			lastD[e.Gid] = d
-			out = append(out, tev{Ev: "Locked", C: c, K: idK[e.ID], D: d, T: e.T})
-			st.Locked++
-			j := nextOfGid[i]
-			if j < 0 || evs[j].Point != "res.beforeDeliver" || evs[j].ID != e.ID {
-				out = append(out, tev{Ev: "Miss", C: c, K: idK[e.ID], D: d, T: e.T})
-				st.Miss++
-				a.Missed++
-				// was the attempt still going to wait for it (timer not fired, call not returned)?
-				ended := a.FiredSeq >= 0 && a.FiredSeq < e.Seq
-				if rs, ok := returnSeq[c]; ok && rs < e.Seq {
-					ended = true
-				}
-				if !ended {
-					a.MissBefore++
-					if a.RegSeq < 0 || e.Seq < a.RegSeq {
-						a.MissBeforeReg++
-					}
-				} else {
-					st.LateMiss++
-				}
-			}
-		case "res.beforeDeliver":
-			c, ok := idCall[e.ID]
-			if !ok {
-				continue
-			}
-			if lastLocked[e.Gid] != e.ID {
-				continue
-			}
-			out = append(out, tev{Ev: "Found", C: c, K: idK[e.ID], D: lastD[e.Gid], T: e.T})
-			st.Found++
-			ai[e.ID].Found++
-			if e.Held == 1 {
-				st.HeldAtDeliver++
-			} else if e.Held == 0 {
-				st.FreeAtDeliver++
-			}
-		case "call.return":
-			c := e.Call
-			k := len(atts[c]) - 1
-			corr := 0
-			if e.Res == "resp" && k >= 0 {
-				rs.mu.Lock()
-				want, ok := rs.produced[atts[c][k].ID]
-				rs.mu.Unlock()
-				if ok && want == e.Data {
-					corr = 1
-				}
-			}
-			out = append(out, tev{Ev: "Returned", C: c, K: k, D: -1, Res: e.Res, Corr: corr, T: e.T})
-		}
-	}
-	out = append(out, tev{Ev: "Quiesce", N: ncalls, Pending: pending, D: -1, K: -1})
-	for c, as := range atts {
-		st.Attempts += len(as)
-		for _, a := range as {
-			if a.SentSeq >= 0 && a.RegSeq >= 0 {
-				if a.RegSeq < a.SentSeq {
-					st.RegisterBeforeSend++
-				} else {
-					st.SendBeforeRegister++
-				}
-			}
-			if a.MissBefore > 0 && a.FiredSeq >= 0 && a.Found == 0 {
-				key := "lost-reply:response-dropped-while-pending"
-				if a.MissBeforeReg > 0 {
-					key = "lost-reply:response-before-registration"
-				}
-				finds = append(finds, finding{Key: key, What: fmt.Sprintf("random traffic: the response for attempt %d of call %d arrived while the attempt was still pending, was dropped as unknown request ID, and the attempt then timed out", idK[a.ID], c), Detail: a})
-			}
-		}
-	}
-	return out, atts, finds
-}
-
-// ---------------------------------------------------------------- traffic mode
-
-func genCall(r *rand.Rand, call int, T time.Duration, maxRetry int) callSpec {
-	tu := int(T.Microseconds())
-	lat := make([]int, maxRetry+1)
-	dup := make([]int, maxRetry+1)
-	for i := range lat {
-		switch x := r.Intn(100); {
-		case x < 30:
-			lat[i] = 0
-		case x < 50:
-			lat[i] = r.Intn(tu / 2)
-		case x < 68:
-			lat[i] = tu*85/100 + r.Intn(tu*30/100) // around the deadline
-		case x < 90:
-			lat[i] = tu*125/100 + r.Intn(tu) // late: arrives during a later attempt or after the call
-		default:
-			lat[i] = 3 * tu
-		}
-		dup[i] = -1
-		if r.Intn(100) < 22 {
-			switch r.Intn(3) {
-			case 0:
-				dup[i] = r.Intn(lat[i] + 1) // before the regular response
-			case 1:
-				dup[i] = lat[i] + r.Intn(2000) // right after it
-			default:
-				dup[i] = lat[i] + tu/2 + r.Intn(tu)
-			}
-		}
-	}
-	cs := callSpec{Call: call, Payload: reqPayload{N: call, Lat: lat, Dup: dup}, CancelUs: -1}
-	if r.Intn(100) < 15 {
-		cs.CancelUs = r.Intn(2 * tu)
-	}
-	return cs
-}
-
-type trafficMeta struct {
-	Rounds        int                    `json:"rounds"`
-	RoundsDone    int                    `json:"rounds_done"`
-	Calls         int                    `json:"calls"`
-	TimeoutMs     int                    `json:"timeout_ms"`
-	MaxRetry      int                    `json:"max_retry"`
-	Stats         segStats               `json:"stats"`
-	Lines         int                    `json:"lines"`
-	MaxDup        int                    `json:"max_dup"`
-	MaxDurUs      int64                  `json:"max_call_duration_us"`
-	BoundUs       int64                  `json:"duration_bound_us"`
-	Findings      []finding              `json:"findings"`
-	Shape         map[string]interface{} `json:"shape"`
-	SetupErr      string                 `json:"setup_error"`
-	PendingChecks int                    `json:"pending_checks"`
-	Traces        []traceFile            `json:"traces"`
-	Samples       []tev                  `json:"samples"`
-	Abandoned     int                    `json:"rounds_abandoned"`
-}
-
-type traceFile struct {
-	File  string `json:"file"`
-	Lines int    `json:"lines"`
-	Calls int    `json:"calls"`
-	Round int    `json:"round"`
-}
-
-func traffic(args []string) int {
-	tracePath, metaPath := args[0], args[1]
-	rounds, _ := strconv.Atoi(args[2])
-	workers, _ := strconv.Atoi(args[3])
-	per, _ := strconv.Atoi(args[4])
-	tms, _ := strconv.Atoi(args[5])
-	T := time.Duration(tms) * time.Millisecond
-	seed := int64(tj.EnvInt("VERIF_SEED", 1))
-	rng := rand.New(rand.NewSource(seed))
-	R := p2p.VerifMaxRetries()
-	meta := trafficMeta{Rounds: rounds, TimeoutMs: tms, MaxRetry: R, Shape: map[string]interface{}{}}
-	defer func() { tj.WriteJSON(metaPath, meta) }()
-	rec := newRecorder()
-	ncalls := workers * per
-	slack := 2 * time.Second
-	for round := 0; round < rounds; round++ {
-		p, err := newPair(rec, T)
-		if err != nil {
-			meta.SetupErr = err.Error()
-			return 3
-		}
-		specs := make([]callSpec, ncalls)
-		for i := range specs {
-			specs[i] = genCall(rng, i+1, T, R)
-		}
-		results := make([]callResult, ncalls)
-		var wg sync.WaitGroup
-		var hung int32
-		for wk := 0; wk < workers; wk++ {
-			wg.Add(1)
-			go func(wk int) {
-				defer wg.Done()
-				for j := 0; j < per; j++ {
-					if atomic.LoadInt32(&hung) != 0 {
-						return
-					}
-					i := wk*per + j
-					// bound: (retries+1) * timeout (+ hold of a cancel) + slack
-					bound := time.Duration(R+1)*T + slack
-					res := doCall(rec, p, specs[i], bound+3*time.Second)
-					results[i] = res
-					if res.Hung {
-						atomic.StoreInt32(&hung, 1)
-						return
-					}
-				}
-			}(wk)
-		}
-		wg.Wait()
-		boundUs := (time.Duration(R+1)*T + slack).Microseconds()
-		meta.BoundUs = boundUs
-		if atomic.LoadInt32(&hung) != 0 {
-			di := analyzeDump()
-			_, lockFree := p.a.VerifTryPending()
-			key := "request-never-returns"
-			if di.ResponderInChanSend && !lockFree {
-				key = "deadlock:deliver-under-lock"
-			}
-			var hc []int
-			for _, r := range results {
-				if r.Hung {
-					hc = append(hc, r.Call)
-				}
-			}
-			meta.Findings = append(meta.Findings, finding{Key: key, What: fmt.Sprintf("random traffic round %d: RequestFrom did not return within (retries+1)*timeout+%v; resMu free=%v; onResponse blocked in chan send=%v", round, slack+3*time.Second, lockFree, di.ResponderInChanSend), Detail: map[string]interface{}{"round": round, "hung_calls": hc, "dump": di}})
-			// abandon this pair of hosts; its events are not part of the trace
-			rec.hostA.Store(nil)
-			p2p.VerifSetHook(nil)
-			meta.Abandoned++
-			continue
-		}
-		// quiescence: all handlers and duplicate senders finished, their responses handled
-		hdone := make(chan struct{})
-		go func() { p.rs.wg.Wait(); close(hdone) }()
-		select {
-		case <-hdone:
-		case <-time.After(4*T + 3*time.Second):
-		}
-		waitFor(1500*time.Millisecond, func() bool { return int64(rec.count("res.locked")) >= atomic.LoadInt64(&p.rs.responses) })
-		time.Sleep(30 * time.Millisecond)
-		pending := -1
-		waitFor(2*time.Second, func() bool {
-			n, ok := p.a.VerifTryPending()
-			if ok {
-				pending = n
-			}
-			return ok
-		})
-		meta.PendingChecks++
-		evs := rec.snapshot()
-		p2p.VerifSetHook(nil)
-		if pending < 0 {
-			di := analyzeDump()
-			meta.Findings = append(meta.Findings, finding{Key: "deadlock:resMu-held-at-quiescence", What: "resMu still held 2 s after all calls returned", Detail: di})
-			rec.hostA.Store(nil)
-			meta.Abandoned++
-			continue
-		}
-		resMap := map[int]callResult{}
-		for _, r := range results {
-			resMap[r.Call] = r
-		}
-		var st segStats
-		lines, atts, finds := normalise(evs, ncalls, R, pending, p.rs, resMap, &st)
-		meta.Findings = append(meta.Findings, finds...)
-		if pending != 0 {
-			meta.Findings = append(meta.Findings, finding{Key: "pending-leak", What: fmt.Sprintf("VerifPending() = %d after all %d calls of round %d returned", pending, ncalls, round), Detail: map[string]int{"round": round, "pending": pending}})
-		}
-		// direct assertions on the real results
-		for _, r := range results {
-			meta.Calls++
-			if r.DurUs > meta.MaxDurUs {
-				meta.MaxDurUs = r.DurUs
-			}
-			if r.DurUs > boundUs {
-				meta.Findings = append(meta.Findings, finding{Key: "request-exceeds-budget", What: fmt.Sprintf("call %d returned %s after %d us > (retries+1)*timeout+slack = %d us", r.Call, r.Res, r.DurUs, boundUs), Detail: r})
-			}
-			as := atts[r.Call]
-			switch r.Res {
-			case "resp":
-				st.Resp++
-				ok := false
-				if len(as) > 0 {
-					p.rs.mu.Lock()
-					want, have := p.rs.produced[as[len(as)-1].ID]
-					p.rs.mu.Unlock()
-					ok = have && want == r.Data && strings.HasPrefix(r.Data, fmt.Sprintf("%d|%s|", r.Call, as[len(as)-1].ID))
-				}
-				if !ok {
-					meta.Findings = append(meta.Findings, finding{Key: "miscorrelated-response", What: fmt.Sprintf("call %d (round %d) received payload %q which is not what the remote handler produced for the request id of its last attempt", r.Call, round, r.Data), Detail: map[string]interface{}{"result": r, "attempts": as}})
-				}
-			case "timeout":
-				st.Timeout++
-				if len(as) != R+1 {
-					meta.Findings = append(meta.Findings, finding{Key: "retry-budget", What: fmt.Sprintf("call %d returned timeout after %d attempts (budget %d)", r.Call, len(as), R+1), Detail: r})
-				}
-			case "cancel":
-				st.Cancel++
-			default:
-				st.Error++
-			}
-			if len(as) > R+1 {
-				meta.Findings = append(meta.Findings, finding{Key: "retry-budget", What: fmt.Sprintf("call %d made %d attempts (budget %d)", r.Call, len(as), R+1), Detail: r})
-			}
-		}
-		st.Calls = ncalls
-		addStats(&meta.Stats, &st)
-		tf := fmt.Sprintf("%s_%03d.ndjson", tracePath, round)
-		w, err := tj.NewWriter(tf)
-		if err != nil {
-			meta.SetupErr = err.Error()
-			return 3
-		}
-		for _, l := range lines {
-			if l.D > meta.MaxDup {
-				meta.MaxDup = l.D
-			}
-			w.Emit(l)
-		}
-		w.Close()
-		meta.Lines += w.N
-		meta.Traces = append(meta.Traces, traceFile{File: tf, Lines: w.N, Calls: ncalls, Round: round})
-		if len(meta.Samples) < 8 {
-			for _, l := range lines {
-				if len(meta.Samples) < 8 && (l.Ev == "Miss" || l.Ev == "Found" || l.Ev == "Returned" || l.Ev == "TimerFired") {
-					meta.Samples = append(meta.Samples, l)
-				}
-			}
-		}
-		meta.RoundsDone++
-		p.stop()
-	}
-	s := meta.Stats
-	meta.Shape["register_first"] = s.RegisterBeforeSend > 0 && s.SendBeforeRegister == 0
-	meta.Shape["register_first_evidence"] = map[string]int{"registered_then_sent": s.RegisterBeforeSend, "sent_then_registered": s.SendBeforeRegister}
-	meta.Shape["deliver_under_lock"] = s.HeldAtDeliver > 0 && s.FreeAtDeliver == 0
-	meta.Shape["deliver_under_lock_evidence"] = map[string]int{"resMu_held_at_beforeDeliver": s.HeldAtDeliver, "resMu_free_at_beforeDeliver": s.FreeAtDeliver}
-	return 0
-}
-
-func addStats(a, b *segStats) {
-	a.Calls += b.Calls
-	a.Attempts += b.Attempts
-	a.Sent += b.Sent
-	a.Registered += b.Registered
-	a.Timers += b.Timers
-	a.Locked += b.Locked
-	a.Found += b.Found
-	a.Miss += b.Miss
-	a.Dups += b.Dups
-	a.Stray += b.Stray
-	a.Resp += b.Resp
-	a.Timeout += b.Timeout
-	a.Cancel += b.Cancel
-	a.Error += b.Error
-	a.EarlyLocked += b.EarlyLocked
-	a.HeldAtDeliver += b.HeldAtDeliver
-	a.FreeAtDeliver += b.FreeAtDeliver
-	a.RegisterBeforeSend += b.RegisterBeforeSend
-	a.SendBeforeRegister += b.SendBeforeRegister
-	a.LateMiss += b.LateMiss
-}
-
-// ---------------------------------------------------------------- forced schedules
-
-type forcedResult struct {
-	Scenario    string                   `json:"scenario"`
-	TimeoutMs   int                      `json:"timeout_ms"`
-	MaxRetry    int                      `json:"max_retry"`
-	Established bool                     `json:"established"`
-	Why         string                   `json:"why_not_established"`
-	Attempts    []map[string]interface{} `json:"attempts"`
-	Call        callResult               `json:"call"`
-	Fresh       *callResult              `json:"fresh_call,omitempty"`
-	Violation   string                   `json:"violation"`
-	What        string                   `json:"what"`
-	Dump        *dumpInfo                `json:"dump,omitempty"`
-	DumpHold    *dumpInfo                `json:"dump_while_held,omitempty"`
-	LockFree    *bool                    `json:"resMu_free_at_watchdog,omitempty"`
-	Shape       map[string]interface{}   `json:"shape"`
-	Schedule    []string                 `json:"schedule"`
-	Events      []string                 `json:"events"`
-	SetupErr    string                   `json:"setup_error"`
-	Lines       int                      `json:"lines"`
-}
-
-func evStrings(evs []rawEv, ids map[string]string) []string {
-	out := []string{}
-	for _, e := range evs {
-		id := e.ID
-		if s, ok := ids[id]; ok {
-			id = s
-		}
-		switch e.Point {
-		case "call.start":
-			out = append(out, fmt.Sprintf("%7dus g%d call.start(%d)", e.T, e.Gid, e.Call))
-		case "call.return":
-			out = append(out, fmt.Sprintf("%7dus g%d call.return(%d)=%s", e.T, e.Gid, e.Call, e.Res))
-		default:
-			out = append(out, fmt.Sprintf("%7dus g%d %s(%s)", e.T, e.Gid, e.Point, id))
-		}
-	}
-	return out
-}
-
-func writeForcedTrace(path string, evs []rawEv, ncalls int, p *pair, results map[int]callResult, res *forcedResult) {
-	var st segStats
-	pending := 0
-	if n, ok := p.a.VerifTryPending(); ok {
-		pending = n
-	}
-	lines, atts, _ := normalise(evs, ncalls, p2p.VerifMaxRetries(), pending, p.rs, results, &st)
-	w, err := tj.NewWriter(path)
-	if err != nil {
-		return
-	}
-	for _, l := range lines {
-		if l.Ev == "Quiesce" {
-			continue // forced runs may end with blocked goroutines: the trace is a prefix
-		}
-		w.Emit(l)
-	}
-	res.Lines = w.N
-	w.Close()
-	ids := map[string]string{}
-	for c, as := range atts {
-		for k, a := range as {
-			ids[a.ID] = fmt.Sprintf("<<%d,%d>>", c, k)
-		}
-	}
-	res.Events = evStrings(evs, ids)
-	if len(res.Events) > 80 {
-		res.Events = res.Events[:80]
-	}
-}
-
-// forced schedule (a): every attempt is held at req.afterSend until its response arrived and was
-// looked up.  The verdict is read from the real run only.
-func forcedLost(args []string) int {
-	tracePath, resPath := args[0], args[1]
-	tms, _ := strconv.Atoi(args[2])
-	T := time.Duration(tms) * time.Millisecond
-	R := p2p.VerifMaxRetries()
-	res := forcedResult{Scenario: "lost", TimeoutMs: tms, MaxRetry: R, Shape: map[string]interface{}{}}
-	res.Schedule = []string{
-		"requester: send request (handler latency 0), reach req.afterSend -> HOLD",
-		"responder side of the requester host: onResponse(id) takes resMu (res.locked), looks id up, returns",
-		"release requester: it registers resCh[id] (if not yet registered) and waits in the select",
-		"repeat for every retry attempt",
-	}
-	defer func() { tj.WriteJSON(resPath, res) }()
-	rec := newRecorder()
-	p, err := newPair(rec, T)
-	if err != nil {
-		res.SetupErr = err.Error()
-		return 3
-	}
-	var amu sync.Mutex
-	rec.setGate("req.afterSend", func(id string) {
-		info := map[string]interface{}{"id": id}
-		t := time.Now()
-		arrived := waitFor(3*time.Second, func() bool { return rec.seen("res.locked", id) })
-		info["response_arrived_while_held"] = arrived
-		looked := false
-		if arrived {
-			// lookup finished: either the deliver point was reached or resMu is free again
-			looked = waitFor(1*time.Second, func() bool {
-				if rec.seen("res.beforeDeliver", id) {
-					return true
-				}
-				_, ok := p.a.VerifTryPending()
-				return ok
-			})
-			time.Sleep(5 * time.Millisecond)
-		}
-		found := rec.seen("res.beforeDeliver", id)
-		info["lookup_finished_while_held"] = looked
-		info["lookup_found_entry"] = found
-		info["held_us"] = time.Since(t).Microseconds()
-		amu.Lock()
-		res.Attempts = append(res.Attempts, info)
-		amu.Unlock()
-	})
-	hold := 4 * time.Second
-	cs := callSpec{Call: 1, Payload: reqPayload{N: 1, Lat: []int{0}, Dup: []int{-1}}, CancelUs: -1}
-	r := doCall(rec, p, cs, time.Duration(R+1)*(T+hold)+5*time.Second)
-	res.Call = r
-	time.Sleep(50 * time.Millisecond)
-	evs := rec.snapshot()
-	p2p.VerifSetHook(nil)
-	// evaluate
-	amu.Lock()
-	atts := res.Attempts
-	amu.Unlock()
-	if len(atts) == 0 {
-		res.Why = "hook req.afterSend never reached"
-	}
-	lost := 0
-	dropped := 0
-	allArrived := len(atts) > 0
-	for _, a := range atts {
-		id := a["id"].(string)
-		arrived := a["response_arrived_while_held"].(bool)
-		if !arrived {
-			allArrived = false
-			continue
-		}
-		fired := false
-		for _, e := range evs {
-			if e.Point == "req.timerFired" && e.ID == id {
-				fired = true
-			}
-		}
-		a["attempt_timed_out"] = fired
-		if !a["lookup_found_entry"].(bool) && a["lookup_finished_while_held"].(bool) && fired {
-			lost++
-		}
-		if a["lookup_found_entry"].(bool) && fired {
-			// the response arrived in time, its pending entry WAS found - and the attempt still ran into its timeout:
-			// the hand-over to the waiting requester dropped it
-			dropped++
-		}
-	}
-	res.Established = allArrived
-	if !allArrived && res.Why == "" {
-		res.Why = "the response did not arrive while the requester was held at req.afterSend"
-	}
-	if r.Hung {
-		res.Established = false
-		res.Why = "call did not return inside the harness bound"
-	}
-	if res.Established && lost > 0 {
-		res.Violation = "lost-reply:response-before-registration"
-		res.What = fmt.Sprintf("forced schedule on the real code: %d of %d attempts had their response arrive (handler latency 0) and be dropped as 'unknown request ID' before the requester registered resCh[id]; each of these attempts then waited the full %d ms and timed out; RequestFrom returned %q after %d ms", lost, len(atts), tms, r.Res+errSuffix(r.Err), r.DurUs/1000)
-	}
-	if res.Established && res.Violation == "" && dropped > 0 {
-		res.Violation = "lost-reply:response-dropped-while-pending"
-		res.What = fmt.Sprintf("forced schedule on the real code: %d of %d attempts had their response arrive in time (handler latency 0) and find the pending entry while the requester was between sending and waiting, and nevertheless timed out after the full %d ms: the hand-over dropped the reply; RequestFrom returned %q after %d ms", dropped, len(atts), tms, r.Res+errSuffix(r.Err), r.DurUs/1000)
-	}
-	sent, reg := -1, -1
-	for _, e := range evs {
-		if e.Point == "req.afterSend" && sent < 0 {
-			sent = e.Seq
-		}
-		if e.Point == "req.registered" && reg < 0 {
-			reg = e.Seq
-		}
-	}
-	if sent >= 0 && reg >= 0 {
-		res.Shape["register_first"] = reg < sent
-	}
-	// requests that never leave: the caller's context is already cancelled, or the peer is not reachable.  They end with an
-	// error - and must not leave a pending entry behind ("... or leak a pending entry")
-	if res.Violation == "" && res.Established {
-		p2p.VerifSetHook(nil)
-		before, okb := p.a.VerifTryPending()
-		failed := 0
-		for i := 0; i < 8; i++ {
-			cctx, cancel := context.WithCancel(context.Background())
-			cancel()
-			if resp := p.a.RequestFrom(cctx, p.bID, proc, []byte(`{"n":900,"lat":[0],"dup":[-1]}`)); resp.Error() != nil {
-				failed++
-			}
-		}
-		_, pk, _ := lcryptoKey()
-		if unknown, err := peer.IDFromPublicKey(pk); err == nil {
-			for i := 0; i < 3; i++ {
-				cctx, cancel := context.WithTimeout(context.Background(), 300*time.Millisecond)
-				if resp := p.a.RequestFrom(cctx, unknown, proc, []byte(`{"n":901,"lat":[0],"dup":[-1]}`)); resp.Error() != nil {
-					failed++
-				}
-				cancel()
-			}
-		}
-		time.Sleep(100 * time.Millisecond)
-		after, oka := p.a.VerifTryPending()
-		res.Shape["failed_sends"] = failed
-		if okb && oka && failed > 0 && after > before {
-			res.Violation = "leak:pending-entry-after-failed-send"
-			res.What = fmt.Sprintf("%d requests whose send step failed (context cancelled before the call, unreachable peer) ended with an error and left %d pending entries behind (before: %d)", failed, after, before)
-		}
-	}
-	writeForcedTrace(tracePath, evs, 1, p, map[int]callResult{1: r}, &res)
-	return 0
-}
-
-func lcryptoKey() (lcrypto.PrivKey, lcrypto.PubKey, error) {
-	return lcrypto.GenerateEd25519Key(crand.Reader)
-}
-
-func errSuffix(e string) string {
-	if e == "" {
-		return ""
-	}
-	return " (" + e + ")"
-}
-
-// forced schedule (b): attempt 0 times out and is held at req.timerFired until its late response
-// reached res.beforeDeliver; then the timer path is released.  Watchdog on the call and a fresh call.
-func forcedDeadlock(args []string) int {
-	tracePath, resPath := args[0], args[1]
-	tms, _ := strconv.Atoi(args[2])
-	T := time.Duration(tms) * time.Millisecond
-	R := p2p.VerifMaxRetries()
-	res := forcedResult{Scenario: "deadlock", TimeoutMs: tms, MaxRetry: R, Shape: map[string]interface{}{}}
-	res.Schedule = []string{
-		fmt.Sprintf("requester: attempt 0 sent and registered; handler latency %d ms > timeout %d ms", tms+tms/2, tms),
-		"requester: timer fires (req.timerFired) -> HOLD before it takes resMu to unregister",
-		"late response: onResponse(id) takes resMu (res.locked), finds the entry, reaches res.beforeDeliver (ch <- resp)",
-		"a duplicate of the late response arrives 40 ms later, while the first copy is unread and the requester still held",
-		"release requester: it needs resMu to delete resCh[id]",
-		"watchdog: the call (retries answer immediately) and a fresh independent RequestFrom must return within (retries+1)*timeout+slack",
-	}
-	defer func() { tj.WriteJSON(resPath, res) }()
-	rec := newRecorder()
-	p, err := newPair(rec, T)
-	if err != nil {
-		res.SetupErr = err.Error()
-		return 3
-	}
-	var once sync.Once
-	released := make(chan struct{})
-	var est atomic.Bool
-	var why atomic.Value
-	rec.setGate("req.timerFired", func(id string) {
-		first := false
-		once.Do(func() { first = true })
-		if !first {
-			return
-		}
-		defer close(released)
-		info := map[string]interface{}{"id": id}
-		ok := waitFor(time.Duration(tms/2)*time.Millisecond+4*time.Second, func() bool { return rec.seen("res.beforeDeliver", id) })
-		info["late_response_reached_beforeDeliver_while_held"] = ok
-		if !ok {
-			if rec.seen("res.locked", id) {
-				why.Store("late response was looked up but res.beforeDeliver was not reached (entry not found)")
-			} else {
-				why.Store("late response never arrived while the requester was held at req.timerFired")
-			}
-		} else {
-			time.Sleep(150 * time.Millisecond) // let onResponse proceed into the channel send
-			d := analyzeDump()
-			res.DumpHold = &d
-			_, free := p.a.VerifTryPending()
-			info["resMu_free_while_responder_at_send"] = free
-			res.Shape["buffered_or_nonblocking_send"] = !d.ResponderInChanSend
-			res.Shape["deliver_under_lock"] = !free
-			est.Store(true)
-		}
-		res.Attempts = append(res.Attempts, info)
-	})
-	slack := 3 * time.Second
-	bound := time.Duration(R+1)*T + slack
-	late := int((T + T/2).Microseconds())
-	// ... and a DUPLICATE of that late response 40 ms after it: it finds the entry still registered and the first copy unread
-	// in the channel - it must be dropped (or buffered), never waited for under the lock
-	cs := callSpec{Call: 1, Payload: reqPayload{N: 1, Lat: []int{late, 0}, Dup: []int{late + 40000, -1}}, CancelUs: -1}
-	xdone := make(chan callResult, 1)
-	go func() { xdone <- doCall(rec, p, cs, 2*bound+8*time.Second) }()
-	select {
-	case <-released:
-	case <-time.After(T + 10*time.Second):
-		res.Why = "hook req.timerFired never reached"
-	}
-	res.Established = est.Load()
-	if w, ok := why.Load().(string); ok && res.Why == "" {
-		res.Why = w
-	}
-	// fresh independent request after the release
-	ydone := make(chan callResult, 1)
-	go func() {
-		ydone <- doCall(rec, p, callSpec{Call: 2, Payload: reqPayload{N: 2, Lat: []int{0}, Dup: []int{-1}}, CancelUs: -1}, bound)
-	}()
-	y := <-ydone
-	res.Fresh = &y
-	var x callResult
-	select {
-	case x = <-xdone:
-	case <-time.After(bound):
-		x = callResult{Call: 1, Hung: true, DurUs: bound.Microseconds()}
-	}
-	res.Call = x
-	evs := rec.snapshot()
-	if x.Hung || y.Hung {
-		d := analyzeDump()
-		res.Dump = &d
-		_, free := p.a.VerifTryPending()
-		res.LockFree = &free
-		if res.Established {
-			if d.ResponderInChanSend && !free {
-				res.Violation = "deadlock:deliver-under-lock"
-				res.What = fmt.Sprintf("forced schedule on the real code: attempt 0 timed out (timeout %d ms); its late response found resCh[id] still registered and onResponse blocked in `ch <- resp` while holding resMu; the requester, past its select, blocks in resMu.Lock() to unregister: both goroutines stay blocked.  Watchdog: the call returned=%v, a fresh independent RequestFrom returned=%v within (retries+1)*timeout+%v = %v; goroutine dump: onResponse in chan send=%v, sendRequestMessage waiting for resMu=%v; resMu free=%v", tms, !x.Hung, !y.Hung, slack, bound, d.ResponderInChanSend, d.RequesterOnMutex, free)
-			} else {
-				res.Violation = "request-never-returns"
-				res.What = fmt.Sprintf("forced schedule on the real code: after a late response raced with the timeout path, RequestFrom did not return within %v (call returned=%v, fresh call returned=%v); onResponse in chan send=%v, resMu free=%v", bound, !x.Hung, !y.Hung, d.ResponderInChanSend, free)
-			}
-		}
-	}
-	// "the response the remote handler produced for that very request": the payload a call returns must be the one
-	// produced for the request id of its LAST attempt (a late response to an earlier attempt that was left behind in a
-	// re-used channel is a response delivered to a different request)
-	if res.Violation == "" && res.Established {
-		for _, c := range []callResult{x, y} {
-			if c.Hung || c.Res != "resp" {
-				continue
-			}
-			var gid int64 = -1
-			last := ""
-			for _, e := range evs {
-				if e.Point == "call.start" && e.Call == c.Call {
-					gid = e.Gid
-				}
-				if e.Point == "req.registered" && e.Gid == gid && gid >= 0 {
-					last = e.ID
-				}
-			}
-			p.rs.mu.Lock()
-			want, have := p.rs.produced[last]
-			p.rs.mu.Unlock()
-			if !have || want != c.Data {
-				res.Violation = "miscorrelated-response:after-late-response"
-				res.What = fmt.Sprintf("forced schedule on the real code: attempt 0 of call 1 timed out and its late response arrived while the requester was between its select and the unregistration; call %d then returned payload %q, the remote handler produced %q for the request id %s of its last attempt", c.Call, c.Data, want, last)
-				break
-			}
-		}
-	}
-	p2p.VerifSetHook(nil)
-	writeForcedTrace(tracePath, evs, 2, p, map[int]callResult{1: x, 2: y}, &res)
-	return 0
-}
 
 func main() {
 	if len(os.Args) < 2 {
-		fmt.Fprintln(os.Stderr, "usage: c17 traffic|lost|deadlock ...")
+		fmt.Fprintln(os.Stderr, "usage: c17 traffic|lost|deadlock|cancelrace|blackhole|payload ...")
 		os.Exit(3)
 	}
 	rc := 3
-	switch os.Args[1] {
-	case "traffic":
+	forced := map[string]func([]string) int{"lost": forcedLost, "deadlock": forcedDeadlock, "cancelrace": forcedCancel, "blackhole": forcedBlackhole, "payload": forcedPayload}
+	switch {
+	case os.Args[1] == "traffic":
 		if len(os.Args) >= 8 {
 			rc = traffic(os.Args[2:])
 		}
-	case "lost":
+	case forced[os.Args[1]] != nil:
 		if len(os.Args) >= 5 {
-			rc = forcedLost(os.Args[2:])
-		}
-	case "deadlock":
-		if len(os.Args) >= 5 {
-			rc = forcedDeadlock(os.Args[2:])
+			rc = forced[os.Args[1]](os.Args[2:])
 		}
 	}
 	// hosts of a deadlocked scenario are abandoned: leave without waiting for them
